@@ -75,6 +75,7 @@ type GenOpts struct {
 	Interval           int
 	ActionTime         int
 	VaryMinCount       bool // table minimum player count 2..4 instead of always 2
+	ZeroActionTime     bool // action time 0 (ActionTime 0 above means 'default')
 }
 
 // GenTable derives a configuration from the PRNG.
@@ -97,6 +98,9 @@ func GenTable(r *rand.Rand, o GenOpts) TableCfg {
 	c := TableCfg{Seats: seats, Mode: modes[r.Intn(len(modes))], Rule: rules[r.Intn(len(rules))], Level: 1 + r.Intn(5), MinPlayers: 2, Interval: o.Interval, ActionTime: o.ActionTime, MaxDuration: 1 << 30}
 	if c.ActionTime == 0 {
 		c.ActionTime = 10
+	}
+	if o.ZeroActionTime {
+		c.ActionTime = 0
 	}
 	// the engine never reads the chip unit: stacks that are no multiple of it must be played as they are
 	c.ChipUnit = []int64{1, 1, 1, 5, 10, 25, 100}[r.Intn(7)]
